@@ -7,6 +7,7 @@ import numpy as np
 
 from ..gen import sampling as G
 from ..gen import sampling_crowded as GC
+from ..gen import sampling_long as GL
 
 ID = "C13"
 LEVEL = "exploration"
@@ -22,7 +23,16 @@ RULE = (
     "(2-80 outcomes incl. 8/9, 16/17, 32/33, 64/65, widths 1-7, small shares 0-3 + a fraction on one side of 1/2, 0-3 "
     "heavy outcomes, so that several shots are corrected at once: the same outcome drawn repeatedly, several outcomes "
     "over-drawn in one pass, outcomes without any copy drawn for elimination) / discretize "
-    "(1-10 positive weights x totals 1..1e12, weights x total <= 1e15). Non-trivial: some request exceeds the maximum "
+    "(1-10 positive weights x totals 1..1e12, weights x total <= 1e15) / long (EVERY function on 100-5000 items, lengths "
+    "around 128, 256, 512, 1000, 1024, 2048, 4096, 5000 +-1 and random: weight lists, circuit lists, one circuit in "
+    "100-5000 copies, expand -> combine pipelines over 100-1025 circuits or copies, batch requests, distributions over "
+    "100-4097 outcomes, 1e4-1e6 shots; content is structured - uniform, short cycles of small integers, two levels, "
+    "ramps, one heavy entry, times a unit 1 / 0.5 / 0.25 / 4.0 / 0.1 / 1/3 / 0.7 - and placed so that the arithmetic "
+    "leaves nothing over / one unit / all but one / two / half: total = c * sum of the integer multiples (+1, +sum-1, ...), "
+    "every request an exact multiple of the maximum (or all +1, all -1, one odd one), batch size 1, 2, L, L+-1, L/2(+-1), a "
+    "divisor of L (+-1), a power of two (+-1), 2L, 1e6; the shot number a multiple of the common denominator of the "
+    "probabilities, one more, one less) / boundaries (the same generators on 1-99 items, mostly around 8, 16, 32, 64). "
+    "Non-trivial: some request exceeds the maximum "
     "(expand, pipelines), some multiplicity >= 2 (combine), >= 2 batches with unequal requests inside one batch (batches), "
     "rounded shares do not sum to the shot number (represent; represent_crowded: by at least 2), >= 2 weights with a "
     "non-integer share (discretize); "
@@ -31,8 +41,16 @@ RULE = (
 ASSUMPTIONS = [
     "oracle = integer / rational arithmetic in plain Python; proportional shares are computed exactly with fractions, "
     "the 'within one' bound gets a float allowance of 8 ulp of the share (1e-9 at least)",
-    "sample counts, maxima, batch sizes, shot numbers and totals are positive Python or numpy integers; multiplicity <= 41 "
-    "per circuit; distributions are normalised; weights x totals <= 1e15 (above 2^53 the function's own assert fires: loud)",
+    "sample counts, maxima, batch sizes, shot numbers and totals are positive Python or numpy integers; multiplicity <= 5000 "
+    "per circuit; distributions are normalised; weights x totals <= 1e15 (above 2^53 the function's own assert fires: loud); "
+    "that exclusion concerns MAGNITUDE only: lists of up to 5000 weights are inside the workload, with totals <= ~1e9 so "
+    "that the accumulated rounding of a 5000-term float sum stays far below one unit",
+    "an exception (AssertionError included) that escapes one of the six functions on an input inside these bounds is a "
+    "violation ('<function>-raises'): the property promises a result for all such inputs",
+    "the names 'f[>=100 ...]' in DECIDING are the same verdicts counted once more for long inputs (decided from the "
+    "arguments alone), so that a run in which no long input was judged is INCONCLUSIVE instead of silently short",
+    "long distributions: at most 12 shots are corrected when there are more than 100 outcomes, at most 2 above 300 outcomes "
+    "(the library's correction step costs time proportional to the number of outcomes per corrected shot)",
     "combined results are compared as per-circuit multisets (the property fixes totals, not an order inside a circuit)",
     "split_into_batches returns a lazy iterable: the monitor materialises it and hands the caller an equivalent iterator",
     "support of a distribution = outcomes with probability > 0",
@@ -44,19 +62,27 @@ DECIDING = [
     "expand_sample_sizes", "combine_measurement_counts", "combine_bitstrings", "split_into_batches",
     "M.get_measurements_representing_distribution", "scale_and_discretize",
     "pipeline-exactly-once", "pipeline-totals",
+    # the same verdicts on LONG inputs (an implementation may switch algorithm by size)
+    "scale_and_discretize[>=100 weights]", "scale_and_discretize[>=100 weights, every share an integer]",
+    "expand_sample_sizes[>=100 circuits]", "expand_sample_sizes[>=100 copies of one circuit]",
+    "combine_measurement_counts[>=100 circuits]", "combine_measurement_counts[>=100 results of one circuit]",
+    "combine_bitstrings[>=100 circuits]", "combine_bitstrings[>=100 results of one circuit]",
+    "split_into_batches[>=100 circuits]", "split_into_batches[>=100 circuits, last batch full]",
+    "split_into_batches[>=100 circuits, last batch partial]",
+    "M.get_measurements_representing_distribution[>=100 outcomes]", "M.get_measurements_representing_distribution[>=10000 shots]",
     # situations inside the correction step that must have been met AND judged on the public result
     "represent:top-up-draws-an-outcome-repeatedly", "represent:elimination-one-outcome-overdrawn",
     "represent:elimination-several-outcomes-overdrawn-in-one-pass", "represent:elimination-overdrawn-outcome-has-copies",
 ]
 BRANCHES = ["representing_distribution:add", "representing_distribution:eliminate", "_check_sample_elimination:resample"]
-BUDGET = {"quick": (4, 30, 36000), "thorough": (16, 120, 400000)}
+BUDGET = {"quick": (4, 45, 36000), "thorough": (16, 120, 400000)}
 
 BIG = 2 ** 53
 
 
 def classes(tier):
     return ["expand", "expand_big", "pipeline_bitstrings", "pipeline_counts", "combine", "batches",
-            "represent", "represent_forced", "represent_crowded", "discretize"]
+            "represent", "represent_forced", "represent_crowded", "discretize", "long", "boundaries"]
 
 
 # ----------------------------------------------------------------------------- helpers
@@ -72,6 +98,19 @@ def _arg(call, pos, name, default=None):
 
 def _seq(x):
     return isinstance(x, (list, tuple))
+
+
+LONG = 100          # "long" input: at least this many weights / circuits / copies / outcomes
+MANY_SHOTS = 10000
+
+
+def _b(x):
+    """sequences / dicts of any length, abbreviated for messages"""
+    if isinstance(x, dict):
+        return repr(x) if len(x) <= 40 else "{" + GL.brief(list(x.items()))[1:-1] + "}"
+    if _seq(x):
+        return GL.brief(x)
+    return repr(x)
 
 
 def _mag(*ns):
@@ -96,7 +135,7 @@ def _post_expand(mon, call):
         # memory / numpy's own integer range (a numpy integer cannot meet a value beyond int64)
         mon.out_of_domain(name)
         return
-    ctx = f"expand_sample_sizes({len(circuits)} circuits, {ns!r}, {mx})"
+    ctx = f"expand_sample_sizes({len(circuits)} circuits, {_b(ns)}, {mx})"
     if call.exc is not None:
         mon.violation("expand-raises", f"{ctx} raised {call.exc!r}")
         return
@@ -108,27 +147,36 @@ def _post_expand(mon, call):
         return
     if len(mult) != len(ns) or not all(_is_int(m) and m >= 0 for m in mult) or len(new_c) != len(new_n) \
             or sum(int(m) for m in mult) != len(new_c):
-        mon.violation("expand-shape" + _mag(*ns), f"{ctx}: {len(new_c)} copies, {len(new_n)} sizes, multiplicities {mult!r}")
+        mon.violation("expand-shape" + _mag(*ns), f"{ctx}: {len(new_c)} copies, {len(new_n)} sizes, multiplicities {_b(mult)}")
         return
     pos = 0
     for i, (c, n, m) in enumerate(zip(circuits, ns, mult)):
         m = int(m)
+        if m == 1 and type(new_n[pos]) is int and new_n[pos] == n <= mx and new_c[pos] is c:
+            pos += 1   # the common situation in long lists, decided without building slices
+            continue
         chunk = new_n[pos:pos + m]
         if any(x is not c for x in new_c[pos:pos + m]):
             mon.violation("expand-order", f"{ctx}: copies {pos}..{pos + m - 1} are not circuit {i}")
             return
         if not all(_is_int(x) for x in chunk) or any(x < 1 or x > mx for x in chunk):
-            mon.violation("expand-copy-out-of-range" + _mag(n), f"{ctx}: circuit {i} gets copies {chunk!r}, allowed 1..{mx}")
+            mon.violation("expand-copy-out-of-range" + _mag(n), f"{ctx}: circuit {i} gets copies {_b(chunk)}, allowed 1..{mx}")
             return
         if sum(int(x) for x in chunk) != n:
             mon.violation("expand-sum" + _mag(n),
-                          f"{ctx}: circuit {i} requested {n}, copies {chunk!r} sum to {sum(int(x) for x in chunk)} "
+                          f"{ctx}: circuit {i} requested {n}, copies {_b(chunk)} sum to {sum(int(x) for x in chunk)} "
                           f"(difference {sum(int(x) for x in chunk) - n})")
             return
         pos += m
     if any(n > BIG for n in ns):
         mon.note("expand: request above 2^53 judged")
     mon.ok(name)
+    if len(ns) >= LONG:
+        mon.ok(name + "[>=100 circuits]")
+        if all(n % mx == 0 for n in ns):
+            mon.note("expand: >=100 circuits, every request an exact multiple of the maximum")
+    if mult and max(int(m) for m in mult) >= LONG:
+        mon.ok(name + "[>=100 copies of one circuit]")
 
 
 def _groups_in_domain(items, mult, item_ok):
@@ -137,6 +185,13 @@ def _groups_in_domain(items, mult, item_ok):
     if len(items) != sum(int(m) for m in mult):
         return False
     return all(item_ok(x) for x in items)
+
+
+def _long_groups(mon, name, mult):
+    if len(mult) >= LONG:
+        mon.ok(name + "[>=100 circuits]")
+    if len(mult) and max(int(m) for m in mult) >= LONG:
+        mon.ok(name + "[>=100 results of one circuit]")
 
 
 def _counts_ok(d):
@@ -150,7 +205,7 @@ def _post_combine_counts(mon, call):
     if not _groups_in_domain(items, mult, _counts_ok):
         mon.out_of_domain(name)
         return
-    ctx = f"combine_measurement_counts({items!r}, {list(mult)!r})"
+    ctx = f"combine_measurement_counts({_b(list(items))}, {_b(list(mult))})"
     if call.exc is not None:
         mon.violation("combine-counts-raises", f"{ctx} raised {call.exc!r}")
         return
@@ -161,6 +216,9 @@ def _post_combine_counts(mon, call):
     pos = 0
     big = _mag(*[v for d in items for v in d.values()])
     for i, m in enumerate(mult):
+        if m == 1 and type(res[i]) is dict and res[i] == items[pos] and all(type(v) is int and v for v in res[i].values()):
+            pos += 1   # a circuit with one result that came back unchanged (the common situation in long lists)
+            continue
         exp = Counter()
         for d in items[pos:pos + int(m)]:
             for k, v in d.items():
@@ -173,6 +231,7 @@ def _post_combine_counts(mon, call):
             mon.violation("combine-counts-wrong" + big, f"{ctx}: circuit {i} -> {got!r}, per-key totals {dict(exp)!r}")
             return
     mon.ok(name)
+    _long_groups(mon, name, mult)
 
 
 def _post_combine_bits(mon, call):
@@ -182,7 +241,7 @@ def _post_combine_bits(mon, call):
     if not _groups_in_domain(items, mult, lambda x: isinstance(x, list)):
         mon.out_of_domain(name)
         return
-    ctx = f"combine_bitstrings({str(items)[:300]}, {list(mult)!r})"
+    ctx = f"combine_bitstrings({str(items)[:300]}, {_b(list(mult))})"
     if call.exc is not None:
         mon.violation("combine-bitstrings-raises", f"{ctx} raised {call.exc!r}")
         return
@@ -192,6 +251,9 @@ def _post_combine_bits(mon, call):
         return
     pos = 0
     for i, m in enumerate(mult):
+        if m == 1 and type(res[i]) is list and res[i] == items[pos]:
+            pos += 1
+            continue
         exp = [x for lst in items[pos:pos + int(m)] for x in lst]
         pos += int(m)
         got = res[i]
@@ -205,6 +267,7 @@ def _post_combine_bits(mon, call):
                           f"{str(got)[:200]}, its copies delivered {len(exp)}: {str(exp)[:200]}")
             return
     mon.ok(name)
+    _long_groups(mon, name, mult)
 
 
 class _Replay:
@@ -236,7 +299,7 @@ def _post_batches(mon, call):
             or mb < 1 or not all(_is_int(n) and n >= 1 for n in ns):
         mon.out_of_domain(name)
         return
-    ctx = f"split_into_batches({len(circuits)} circuits, {list(ns)!r}, {mb})"
+    ctx = f"split_into_batches({len(circuits)} circuits, {_b(list(ns))}, {mb})"
     if call.exc is not None:
         mon.violation("batches-raises", f"{ctx} raised {call.exc!r}")
         return
@@ -263,11 +326,11 @@ def _post_batches(mon, call):
             return
         want = list(circuits[pos:pos + len(chunk)])
         if len(want) != len(chunk) or any(x is not y for x, y in zip(chunk, want)):
-            mon.violation("batches-cover", f"{ctx}: batch {bi} = {chunk!r}, next uncovered circuits are {want!r}")
+            mon.violation("batches-cover", f"{ctx}: batch {bi} = {_b(chunk)}, next uncovered circuits are {_b(want)}")
             return
         asked = [int(x) for x in ns[pos:pos + len(chunk)]]
         if chunk and (not _is_int(n) or n < max(asked)):
-            mon.violation("batches-under-request", f"{ctx}: batch {bi} requests {n!r}, its circuits asked {asked!r}")
+            mon.violation("batches-under-request", f"{ctx}: batch {bi} requests {n!r}, its circuits asked {_b(asked)}")
             return
         pos += len(chunk)
     if pos != len(circuits):
@@ -275,6 +338,16 @@ def _post_batches(mon, call):
         return
     mon.note(f"batches: {min(len(items), 3)}{'+' if len(items) >= 3 else ''} batches")
     mon.ok(name)
+    k, mb = len(circuits), int(mb)
+    if k >= LONG:
+        mon.ok(name + "[>=100 circuits]")
+        if 1 < mb < k:
+            mon.ok(name + ("[>=100 circuits, last batch full]" if k % mb == 0 else "[>=100 circuits, last batch partial]"))
+    if k:
+        mon.note("batches: " + ("batch size 1" if mb == 1 and k > 1 else "one batch, exactly full" if mb == k
+                                else "one batch, not full" if mb > k else "last batch full" if k % mb == 0
+                                else "last batch holds one circuit" if k % mb == 1
+                                else "last batch one short of full" if k % mb == mb - 1 else "last batch partial"))
 
 
 def _bits(key):
@@ -322,7 +395,7 @@ def _post_represent(mon, call):
             or not math.isclose(sum(v for _, v in items), 1, rel_tol=1e-9) or len({len(k) for k, _ in items}) != 1:
         mon.out_of_domain(name)
         return
-    ctx = f"representing({dict(items)!r}, {n})"
+    ctx = f"representing({_b(dict(items))}, {n})"
     if call.exc is not None:
         mon.violation("represent-raises", f"{ctx} raised {call.exc!r}")
         return
@@ -342,6 +415,12 @@ def _post_represent(mon, call):
     mon.note("represent: shots added" if rounded < n else "represent: shots eliminated" if rounded > n
              else "represent: rounded shares already exact")
     mon.ok(name)
+    if len(items) >= LONG:
+        mon.ok(name + "[>=100 outcomes]")
+        mon.note("represent: >=100 outcomes, " + ("shots added" if rounded < n else "shots eliminated" if rounded > n
+                                                   else "rounded shares already exact"))
+    if n >= MANY_SHOTS:
+        mon.ok(name + "[>=10000 shots]")
     # what the correction step was confronted with in this (correctly answered) call
     draw, over = st.get("draw"), st.get("overdrawn")
     if "overdrawn" not in st:  # no elimination: the draw (if any) was a top-up
@@ -369,37 +448,54 @@ def _post_discretize(mon, call):
     if values is None or not values or not _is_int(total) or total < 1:
         mon.out_of_domain(name)
         return
+    # exact arithmetic on integers: weight i = W[i] / D with one common denominator, share i = W[i] * total / S
     try:
-        fr = [Fraction(v) if not isinstance(v, np.generic) else Fraction(v.item()) for v in values]
+        ratios = [(v.item() if isinstance(v, np.generic) else v).as_integer_ratio() for v in values]
+        D = math.lcm(*{d for _, d in ratios})
+        W = [n * (D // d) for n, d in ratios]
     except Exception:
         mon.out_of_domain(name)
         return
-    if any(v <= 0 for v in fr):
+    if any(w <= 0 for w in W):
         mon.out_of_domain(name)
         return
     total = int(total)
-    s = sum(fr)
-    shares = [v * total / s for v in fr]
-    if max(shares) > 10 ** 15 or total > 10 ** 15:
+    S = sum(W)
+    if max(W) * total > 10 ** 15 * S or total > 10 ** 15:
         mon.out_of_domain(name)
         return
-    ctx = f"scale_and_discretize({values!r}, {total})"
+    ctx = f"scale_and_discretize({_b(values)}, {total})"
     if call.exc is not None:
         mon.violation("discretize-raises", f"{ctx} raised {call.exc!r}")
         return
     res = call.result
     if not isinstance(res, list) or len(res) != len(values) or not all(_is_int(x) for x in res):
-        mon.violation("discretize-type", f"{ctx} -> {res!r}")
+        mon.violation("discretize-type", f"{ctx} -> {_b(res)}")
         return
     if sum(int(x) for x in res) != total:
-        mon.violation("discretize-sum", f"{ctx} -> {res!r} sums to {sum(int(x) for x in res)}")
+        mon.violation("discretize-sum", f"{ctx} -> {_b(res)} sums to {sum(int(x) for x in res)}")
         return
-    for i, (x, sh) in enumerate(zip(res, shares)):
+    for i, (x, w) in enumerate(zip(res, W)):
+        if abs(int(x) * S - w * total) <= S:   # within one of the exact share
+            continue
+        sh = Fraction(w * total, S)
         allow = 1 + max(Fraction(1, 10 ** 9), sh * 8 * Fraction(1, 2 ** 52))
         if abs(int(x) - sh) > allow:
-            mon.violation("discretize-share", f"{ctx} -> {res!r}: entry {i} is {x}, proportional share {float(sh)!r}")
+            mon.violation("discretize-share", f"{ctx} -> {_b(res)}: entry {i} is {x}, proportional share {float(sh)!r}")
             return
     mon.ok(name)
+    # which remainder situation this (correctly answered) request was: decided by the exact shares alone
+    left = total - sum(w * total // S for w in W)   # units left after rounding every share down
+    how = "every share an integer" if left == 0 else "one unit left over" if left == 1 \
+        else "all but one entry rounded up" if left == len(W) - 1 else None
+    if len(W) >= 2 and how:
+        mon.note("discretize: " + how)
+    if len(W) >= LONG:
+        mon.ok(name + "[>=100 weights]")
+        if left == 0:
+            mon.ok(name + "[>=100 weights, every share an integer]")
+        elif how:
+            mon.note("discretize: >=100 weights, " + how)
 
 
 def install(mon, reach):
@@ -442,7 +538,15 @@ def _as_given(rng, ns, mx):
     return list(ns)
 
 
-def _pipeline(ctx, circuits, ns, mx, mode):
+def _cheap_counts(pool, j, n):
+    """histogram of n shots for copy j, structured (long pipelines): one or two outcomes of the pool"""
+    a, b = pool[j % len(pool)], pool[(j + 1) % len(pool)]
+    if n >= 2 and a != b and j % 3:
+        return {a: n // 2, b: n - n // 2}
+    return {a: n}
+
+
+def _pipeline(ctx, circuits, ns, mx, mode, cheap=False):
     """expand -> run every copy -> combine, with exactly-once accounting"""
     from orquestra.quantum.circuits._itertools import combine_bitstrings, combine_measurement_counts, expand_sample_sizes
 
@@ -451,7 +555,7 @@ def _pipeline(ctx, circuits, ns, mx, mode):
     new_c, new_n, mult = expand_sample_sizes(circuits, ns, mx)
     new_c, new_n, mult = list(new_c), list(new_n), list(mult)
     if len(new_c) != len(new_n) or sum(mult) != len(new_c) or len(mult) != len(circuits):
-        ctx.check("pipeline-totals" + big, False, f"expansion of {ns!r} by {mx} is inconsistent: {new_n!r} {mult!r}")
+        ctx.check("pipeline-totals" + big, False, f"expansion of {_b(ns)} by {mx} is inconsistent: {_b(new_n)} {_b(mult)}")
         return
     owner = [i for i, m in enumerate(mult) for _ in range(m)]  # copy -> original circuit (by position)
     if mode == "bitstrings":
@@ -481,23 +585,113 @@ def _pipeline(ctx, circuits, ns, mx, mode):
                 lost = list((every - seen).elements())[:5]
                 dup = list((seen - every).elements())[:5]
                 ok, why = False, f"not exactly-once: lost {lost!r}, duplicated or invented {dup!r}"
-        ctx.check("pipeline-exactly-once", ok, lambda: f"requests {ns!r} max {mx}: {why}")
+        ctx.check("pipeline-exactly-once", ok, lambda: f"requests {_b(ns)} max {mx}: {why}")
         ctx.check("pipeline-totals", [len(r) for r in res] == list(ns) if len(res) == len(ns) else False,
-                  lambda: f"requests {ns!r} max {mx}: combined sizes {[len(r) for r in res]!r}")
+                  lambda: f"requests {_b(ns)} max {mx}: combined sizes {_b([len(r) for r in res])}")
         return
     pool = G.rand_pool(rng)
-    produced = [G.rand_counts_total(rng, pool, int(n)) for n in new_n]
+    if cheap:
+        produced = [_cheap_counts(pool, j, int(n)) for j, n in enumerate(new_n)]
+    else:
+        produced = [G.rand_counts_total(rng, pool, int(n)) for n in new_n]
     res = combine_measurement_counts([dict(p) for p in produced], mult)
     totals = [sum(r.values()) for r in res]
     ctx.check("pipeline-totals" + big, totals == [int(n) for n in ns],
-              lambda: f"requests {list(ns)!r} max {mx}: copies {new_n!r} combined per-circuit totals {totals!r}")
+              lambda: f"requests {_b(list(ns))} max {mx}: copies {_b(new_n)} combined per-circuit totals {_b(totals)}")
     exp = [Counter() for _ in circuits]
     for j, p in enumerate(produced):
         exp[owner[j]].update(p)
     ok = len(res) == len(exp) and all({k: v for k, v in r.items() if v} == {k: v for k, v in e.items() if v}
                                       for r, e in zip(res, exp))
     ctx.check("pipeline-exactly-once" + big, ok,
-              lambda: f"requests {list(ns)!r} max {mx}: per-outcome totals {res!r} expected {[dict(e) for e in exp]!r}")
+              lambda: f"requests {_b(list(ns))} max {mx}: per-outcome totals {_b(res)} expected {_b([dict(e) for e in exp])}")
+
+
+KINDS = ["discretize", "discretize", "expand", "expand_deep", "pipeline_bitstrings", "pipeline_counts", "batches",
+         "represent", "represent_many_shots"]
+
+
+def _structured_case(ctx, cls):
+    """classes 'long' (100 ... 5000 items) and 'boundaries' (1 ... 99 items): every function of the property on
+    structured inputs whose arithmetic leaves nothing / one unit / all but one unit over (rv/gen/sampling_long.py)"""
+    from orquestra.quantum.circuits._itertools import expand_sample_sizes, split_into_batches
+    from orquestra.quantum.distributions import MeasurementOutcomeDistribution
+    from orquestra.quantum.measurements import Measurements
+    from orquestra.quantum.utils import scale_and_discretize
+
+    rng = ctx.rng
+    long = cls == "long"
+    kind = rng.choice(KINDS)
+
+    def size(cap=5000):
+        if long and cap == 5000 and ctx.tier == "thorough" and rng.random() < 0.06:
+            return GL.very_long_length(rng)
+        return GL.long_length(rng, cap) if long else GL.medium_length(rng)
+
+    if kind == "discretize":
+        L = size()
+        tag, ws, total, exact = GL.weights_total(rng, L)
+        form = rng.choice(["list", "list", "tuple", "np"])
+        ctx.describe(f"{cls} discretize L={L} {tag} as {form}", L >= 2)
+        arg = list(ws) if form == "list" else tuple(ws) if form == "tuple" else [np.float64(v) for v in ws]
+        scale_and_discretize(arg, total)
+        return
+
+    if kind in ("expand", "expand_deep"):
+        L = size()
+        tag, mx, ns = GL.requests(rng, L, deep=kind == "expand_deep")
+        circuits = GL.tokens(rng, len(ns))
+        ctx.describe(f"{cls} {kind} {tag}", any(n > mx for n in ns))
+        if rng.random() < 0.2:
+            circuits = tuple(circuits)
+        expand_sample_sizes(circuits, _as_given(rng, ns, mx), mx)
+        return
+
+    if kind in ("pipeline_bitstrings", "pipeline_counts"):
+        L = size(rng.choice([513, 513, 1025]))
+        deep = rng.random() < 0.4
+        if long and kind == "pipeline_bitstrings" and rng.random() < 0.15:
+            tag, mx, ns = GL.wide_requests(rng)   # few copies, each delivering a long list of shots
+            ctx.mon.note("pipeline: copies delivering >=1000 shots each")
+        else:
+            tag, mx, ns = GL.requests(rng, L, deep=deep, maxima=[1, 1, 2, 3] if kind == "pipeline_bitstrings" else None)
+        circuits = GL.tokens(rng, len(ns))
+        ctx.describe(f"{cls} {kind} {tag}", any(n > mx for n in ns))
+        _pipeline(ctx, circuits, ns, mx, "bitstrings" if kind == "pipeline_bitstrings" else "counts", cheap=True)
+        return
+
+    if kind == "batches":
+        L = size()
+        tag, ns, mb = GL.batch_request(rng, L)
+        circuits = GL.tokens(rng, L)
+        ctx.describe(f"{cls} batches {tag}", L > mb)
+        if rng.random() < 0.3:
+            circuits, ns = tuple(circuits), tuple(ns)
+        out = split_into_batches(circuits, ns, mb)
+        seen = [c for chunk, _ in out for c in chunk]
+        ctx.check("batches-delivered", len(seen) == L and all(a is b for a, b in zip(seen, circuits)),
+                  lambda: f"L={L} max_batch={mb}: caller iterated {_b(seen)}")
+        return
+
+    np.random.seed(rng.getrandbits(32))
+    if kind == "represent":
+        K = size(rng.choice([513] * 8 + [1025] * 3 + [4097]))
+        tag, d, n = GL.wide_distribution(rng, K)
+    else:
+        # few outcomes, very many shots (long only; 'boundaries' asks the short distributions for 100 ... 9999 shots)
+        style, d = G.rand_distribution(rng, rng.choice(["equal", "smallint", "int", "thirds", "float"]))
+        n = GL.many_shots(rng) if long else rng.choice([100, 127, 128, 129, 1000, 1023, 1024, 1025, 4096, 8192, 9999])
+        if rng.random() < 0.4:   # every share an integer: probabilities m_i / S, shot number a multiple of S
+            k = len(d)
+            ms = [rng.randint(1, 5) for _ in range(k)]
+            d = {key: m / sum(ms) for key, m in zip(d, ms)}
+            n = max(1, n // sum(ms)) * sum(ms)
+            style = f"exact{ms}"
+        tag = f"[{style}] n={n} dist={d!r}"
+    ctx.describe(f"{cls} {kind} {tag}", True)
+    keyform = rng.choice(["str", "tuple"])
+    dist = MeasurementOutcomeDistribution(dict(d) if keyform == "str" else {tuple(int(c) for c in k): v for k, v in d.items()})
+    Measurements.get_measurements_representing_distribution(dist, n)
 
 
 def run_case(ctx):
@@ -510,6 +704,10 @@ def run_case(ctx):
     rng = ctx.rng
     cls = ctx.cls
     mon = ctx.mon
+
+    if cls in ("long", "boundaries"):
+        _structured_case(ctx, cls)
+        return
 
     if cls in ("expand", "expand_big"):
         mx, ns = G.rand_requests(rng) if cls == "expand" else G.rand_big_requests(rng)
